@@ -106,7 +106,8 @@ impl NamespaceProof {
         // for each tree level. Based on that we can recompute the total amount
         // of leaves in a tree.
         if self.end_idx().saturating_sub(self.start_idx()) == 1 {
-            Some(1 << self.siblings().len())
+            // more siblings than bits in usize can't describe any tree
+            1usize.checked_shl(u32::try_from(self.siblings().len()).ok()?)
         } else {
             None
         }
